@@ -167,6 +167,16 @@ def nonIncOverride (e : Eng) (bind : Bind) (pfx : Bool) : Eng × Bind × Bool :=
   if e.nonInc && (!hasCmd e bind || pfx) then ({ e with active := selfInsertBind }, selfInsertBind, false)
   else (e, bind, pfx)
 
+/-- ... except for the first bytes of a character, which wait for the rest of it in the search
+minibuffer too (`partial` in `MatchMain`) -/
+def nonIncOverrideR (e : Eng) (bind : Bind) (pfx : Bool) (read : Seq) : Eng × Bind × Bool :=
+  if pfx && decide (read.headD 0 ≥ 0x80) && !fullRune read then (e, bind, pfx) else nonIncOverride e bind pfx
+
+theorem nonIncOverrideR_off (e : Eng) (bind : Bind) (pfx : Bool) (read : Seq) (h : e.nonInc = false) :
+    nonIncOverrideR e bind pfx read = (e, bind, pfx) := by
+  unfold nonIncOverrideR nonIncOverride
+  simp [h]
+
 /-- `isearchCommands` (internal/keymap/completion.go): the commands of the main keymap that stay bound
 while the incremental search is active -/
 def isearchCommands : List String := ["abort", "backward-delete-char", "backward-kill-word", "backward-kill-line",
@@ -194,7 +204,7 @@ def matchMain (e : Eng) : Eng × Bind × Bool × Bool :=
   let (e0, pfx0, read0, _) := dispatchKeys e.mainBinds n e [] [] false
   let (e1, bind1, pfx1, read) := matchCharacter e0 e0.active pfx0 read0
   let e2' := { e1 with keys := if pfx1 then e1.keys.matchedPrefix read else e1.keys.matchedKeys read [] }
-  let (e2, bind, pfx) := nonIncOverride e2' bind1 pfx1
+  let (e2, bind, pfx) := nonIncOverrideR e2' bind1 pfx1 read
   if isEscapeKey e2 && !e2.isEmacs && pfx then
     -- handleEscape(true)
     let b := if e2.prefixed.action = "vi-movement-mode" then e2.prefixed else Bind.none
